@@ -200,6 +200,9 @@ var univC = []kspec{in(1), arr(in(1)), arr(arr(in(1))), arr(arr(in(1), in(2))), 
 // universe V = few keys, many VALUES: histories here also store nil, false, 0, "" and []
 var univV = []kspec{sym("a"), str("s"), in(1)}
 
+// universe W = two keys, values that compare equal to each other without being the same value
+var univW = []kspec{sym("a"), in(1)}
+
 // ---------------------------------------------------------------- operations
 
 type op struct {
@@ -209,8 +212,15 @@ type op struct {
 	sv  byte // 0 = the integer v; otherwise a special value: N nil, F false, E "", L []
 }
 
-// values that look "absent" to careless code: nil, false, the empty string, the empty array (and 0)
-const specials = "NFEL"
+// values that look "absent" to careless code: N nil, F false, E "", L [] (and 0); and values that
+// are DIFFERENT from each other but equal under Compare (the stored value must be the latest one, not
+// one that merely compares equal): the int 97 (written 97), c the char 'a', f the float 97.0,
+// h and g two hashes (same TypeName, different content), a and b two distinct arrays [1].
+// Immutable values are recognised by type and content, the mutable ones (h g a b) by object identity.
+const specials = "NFELcfhgab"
+const poolLetters = "hgab"
+
+var pool = map[byte]zygo.Sexp{}
 
 func specialValue(env *zygo.Zlisp, c byte) zygo.Sexp {
 	switch c {
@@ -222,6 +232,31 @@ func specialValue(env *zygo.Zlisp, c byte) zygo.Sexp {
 		return &zygo.SexpStr{S: ""}
 	case 'L':
 		return &zygo.SexpArray{Val: []zygo.Sexp{}, Env: env}
+	case 'c':
+		return &zygo.SexpChar{Val: 'a'}
+	case 'f':
+		return &zygo.SexpFloat{Val: 97.0}
+	case 'h', 'g', 'a', 'b':
+		if v, ok := pool[c]; ok {
+			return v
+		}
+		var v zygo.Sexp
+		switch c {
+		case 'h', 'g':
+			hh, err := zygo.MakeHash(nil, "hash", env)
+			if err != nil {
+				panic(err)
+			}
+			name := map[byte]string{'h': "a", 'g': "b"}[c]
+			if err := hh.HashSet(env.MakeSymbol(name), &zygo.SexpInt{Val: int64(c)}); err != nil {
+				panic(err)
+			}
+			v = hh
+		default:
+			v = &zygo.SexpArray{Val: []zygo.Sexp{&zygo.SexpInt{Val: 1}}, Env: env}
+		}
+		pool[c] = v
+		return v
 	}
 	panic("bad special value")
 }
@@ -391,7 +426,20 @@ func (d *scriptDriver) loopValues() (zygo.Sexp, int) {
 // ---------------------------------------------------------------- observation
 
 func val(v zygo.Sexp) string {
+	for _, c := range []byte(poolLetters) {
+		if p, ok := pool[c]; ok && p == v {
+			return string(c)
+		}
+	}
 	switch x := v.(type) {
+	case *zygo.SexpChar:
+		if x.Val == 'a' {
+			return "c"
+		}
+	case *zygo.SexpFloat:
+		if x.Val == 97.0 {
+			return "f"
+		}
 	case *zygo.SexpInt:
 		return strconv.FormatInt(x.Val, 10)
 	case *zygo.SexpBool:
@@ -668,7 +716,7 @@ type replayFile struct {
 func main() {
 	a := lib.ParseArgs()
 	out := lib.NewOut(a.Out)
-	out.Rule = "universe A (9 keys: symbols a b, strings s t, ints 1 97, char 'a' (= 97), array [1], int = symbol number of a), universe B (9 keys: arrays [1 97] [1 'a'] [97] ['a'] [], 97, 'a', string s, int = fnv code of s), universe C (5 keys: 1 [1] [[1]] [[1 2]] [1 2]) and universe V (3 keys a s 1 with the values fresh-int, 0, nil, false, empty string, []): ALL histories of hset/hdel (fresh value per step) up to the length bound, each observed after its last step (so after every step of every history); the key list and every positional pair taken after EVERY intermediate step are held and must read the same at the end, and overwriting the handed-out containers must not change the hash; random long histories observed after every step; a case is non-trivial when the history has at least 2 operations; distinct = distinct (mode, universe, history) inputs"
+	out.Rule = "universe A (9 keys: symbols a b, strings s t, ints 1 97, char 'a' (= 97), array [1], int = symbol number of a), universe B (9 keys: arrays [1 97] [1 'a'] [97] ['a'] [], 97, 'a', string s, int = fnv code of s), universe C (5 keys: 1 [1] [[1]] [[1 2]] [1 2]), universe W (2 keys a 1 with the mutually Compare-equal values 97, 'a', 97.0, two hashes, two arrays [1]) and universe V (3 keys a s 1 with the values fresh-int, 0, nil, false, empty string, []): ALL histories of hset/hdel (fresh value per step) up to the length bound, each observed after its last step (so after every step of every history); the key list and every positional pair taken after EVERY intermediate step are held and must read the same at the end, and overwriting the handed-out containers must not change the hash; random long histories observed after every step; a case is non-trivial when the history has at least 2 operations; distinct = distinct (mode, universe, history) inputs"
 	env := zygo.NewZlisp()
 	env.StandardSetup()
 	dflt := &zygo.SexpStr{S: "DFLT"}
@@ -685,7 +733,8 @@ func main() {
 	uB := mkU("B", univB)
 	uC := mkU("C", univC)
 	uV := mkU("V", univV)
-	unis := map[string]*universe{"A": uA, "B": uB, "C": uC, "V": uV}
+	uW := mkU("W", univW)
+	unis := map[string]*universe{"A": uA, "B": uB, "C": uC, "V": uV, "W": uW}
 
 	var cur *universe
 	use := func(u *universe) {
@@ -772,7 +821,13 @@ func main() {
 			enum(mode, append(prefix[:len(prefix):len(prefix)], op{k: k, v: v}), depth-1)
 			if cur.id == "V" {
 				enum(mode, append(prefix[:len(prefix):len(prefix)], op{k: k, v: 0}), depth-1)
-				for _, c := range []byte(specials) {
+				for _, c := range []byte("NFEL") {
+					enum(mode, append(prefix[:len(prefix):len(prefix)], op{k: k, sv: c}), depth-1)
+				}
+			}
+			if cur.id == "W" {
+				enum(mode, append(prefix[:len(prefix):len(prefix)], op{k: k, v: 97}), depth-1)
+				for _, c := range []byte("cfhgab") {
 					enum(mode, append(prefix[:len(prefix):len(prefix)], op{k: k, sv: c}), depth-1)
 				}
 			}
@@ -797,6 +852,9 @@ func main() {
 	use(uV)
 	all("A", exV)
 	all("S", exS)
+	use(uW)
+	all("A", exV)
+	all("S", exS)
 
 	// random long histories, observed after every step; deletes are biased to live keys
 	rng := lib.NewRng(a.Seed)
@@ -810,6 +868,9 @@ func main() {
 		}
 		if n%10 == 5 {
 			u = uV
+		}
+		if n%10 == 7 {
+			u = uW
 		}
 		if cur != u {
 			use(u)
@@ -829,8 +890,10 @@ func main() {
 			case r < 6:
 				if c := rng.Intn(len(specials) + 1); c < len(specials) {
 					ops = append(ops, op{k: k, sv: specials[c]})
-				} else {
+				} else if rng.Bool() {
 					ops = append(ops, op{k: k, v: 0})
+				} else {
+					ops = append(ops, op{k: k, v: 97})
 				}
 			default:
 				ops = append(ops, op{k: k, v: int64(i + 1)})
